@@ -1100,7 +1100,7 @@ def _star(rng, cx, cy, rmin, rmax, n):
     # avoid nearly coincident angles
     ts = np.linspace(0, 2 * math.pi, n, endpoint=False) + rng.uniform(-0.3, 0.3, n) * (2 * math.pi / n)
     rs = rng.uniform(rmin, rmax, n)
-    return [[round(cx + r * math.cos(t), 4), round(cy + r * math.sin(t), 4)] for r, t in zip(rs, ts)]
+    return [[round(float(cx + r * math.cos(t)), 4), round(float(cy + r * math.sin(t)), 4)] for r, t in zip(rs, ts)]
 
 
 def gen_polys(rng, ctr, scale, multi=None, holes=None):
@@ -1127,7 +1127,7 @@ def gen(kind, rng, z=None, ctr=None, scale=None):
     """parameters of a random region of the given kind near `ctr` (default: near the origin), planar ones at height z"""
     if ctr is None:
         ctr = (rng.uniform(-1.2, 1.2), rng.uniform(-1.2, 1.2), rng.uniform(-0.6, 0.6))
-    cx, cy, cz = (float(v) for v in ctr)
+    cx, cy, cz = (round(float(v), 4) for v in ctr)
     if z is None:
         z = float(rng.choice(ZLEVELS))
     s = float(scale) if scale else float(rng.uniform(1.2, 2.6))
